@@ -31,7 +31,9 @@ REPLAY_ENV = {'DB_FIELD_ENCRYPTION_KEY': ENC_KEY}
 RULE = ('a case = (private object kind + how it was imported + network/compression/witness type, HISTORY of prior '
         'calls on the private object, public view or default form taken afterwards); each case scans object graph, '
         'pickle bytes, unpickled + deep-copied graph, repr, str, as_dict, as_json, info() for all encodings of the '
-        'object secret and of all keys derivable from it on the paths the library uses; wallet cases add every key '
+        'object secret and of all keys derivable from it on the paths the library uses; wallets are created from every kind of key '
+        'material (master xprv, ACCOUNT-level private extended key, account xpub, single key, multisig from master or account-level '
+        'keys), exports are scanned on the operating and on a reopened handle; wallet cases add every key '
         'row of the wallet (derived independently from the seed), at-rest cases scan the raw sqlite file; '
         'non-trivial = distinct (object kind, import format, network, compressed, history op tuple, view) tuples')
 TRUSTED_BASE = ['vf/refs/bip32.py, vf/refs/secp256k1.py (derivation of every wallet key from the harness seed; BIP32 vectors)',
@@ -883,15 +885,19 @@ def wallet_taint(col, db_path, seeds, singles, taint=None, deriver=None):
             p = None
         found = False
         if p is not None:
-            for si, seed in enumerate(seeds):
+            for si, root in enumerate(seeds):
+                # a root is a seed, or (seed, base path) when the wallet was created from a key below the master: the
+                # library then stores paths relative to that key ('M/0/0')
+                seed, base = root if isinstance(root, tuple) else (root, ())
+                full = list(base) + list(p)
                 try:
-                    x = deriver.get(seed, p)
+                    x = deriver.get(seed, full)
                 except ValueError:
                     continue
                 if ec.encode_pub(x.point, len(public) == 33) == public:
-                    for j in range(len(p) + 1):
-                        a = deriver.get(seed, p[:j])
-                        taint.add('seed%d:%s' % (si, '/'.join(['m'] + [(str(i - bip32.HARD) + "'") if i >= bip32.HARD else str(i) for i in p[:j]])), a.secret, a)
+                    for j in range(len(full) + 1):
+                        a = deriver.get(seed, full[:j])
+                        taint.add('seed%d:%s' % (si, '/'.join(['m'] + [(str(i - bip32.HARD) + "'") if i >= bip32.HARD else str(i) for i in full[:j]])), a.secret, a)
                     found = True
                     break
         if is_private:
@@ -903,8 +909,24 @@ def wallet_taint(col, db_path, seeds, singles, taint=None, deriver=None):
     return taint, n_priv
 
 
+def account_path(network, witness_type, multisig):
+    """Path of the account-level key (the 'public master' level) the library uses for this kind of wallet."""
+    H = bip32.HARD
+    coin = chain.NETWORKS[network]['bip44_cointype']
+    if not multisig:
+        return [{'legacy': 44, 'p2sh-segwit': 49, 'segwit': 84}[witness_type] + H, coin + H, H]
+    if witness_type == 'legacy':
+        return [45 + H]
+    return [48 + H, coin + H, H, (1 if witness_type == 'p2sh-segwit' else 2) + H]
+
+
+ACCOUNT_WTYPES = ('hd_account', 'watch_account', 'multisig_account')
+
+
 def make_wallet(case, db_path, name):
-    """Create the wallet of a case from reference-produced key strings."""
+    """Create the wallet of a case from reference-produced key strings: master private key, ACCOUNT-level private
+    extended key, account-level public key (watch-only), single private key, multisig from a master key or from
+    account-level keys."""
     from bitcoinlib.wallets import Wallet
     from bitcoinlib.keys import HDKey
     net, wt = case['network'], case['witness_type']
@@ -913,6 +935,11 @@ def make_wallet(case, db_path, name):
     if case['wtype'] == 'hd':
         xprv = bip32.master(seed).serialize(chain.hd_prefix(net, wt, False, True))
         return Wallet.create(name, keys=xprv, network=net, witness_type=wt, db_uri=uri, anti_fee_sniping=False)
+    if case['wtype'] in ('hd_account', 'watch_account'):
+        acc = bip32.derive(bip32.master(seed), account_path(net, wt, False))
+        private = case['wtype'] == 'hd_account'
+        key = acc.serialize(chain.hd_prefix(net, wt, False, private), private=private)
+        return Wallet.create(name, keys=key, network=net, witness_type=wt, db_uri=uri, anti_fee_sniping=False)
     if case['wtype'] == 'single':
         secret = int(case['single_secret'], 16)
         wif = chain.wif_encode(net, secret.to_bytes(32, 'big'), True)
@@ -923,6 +950,13 @@ def make_wallet(case, db_path, name):
         keys = [own]
         for cs in case['cosigner_seeds']:
             keys.append(HDKey.from_seed(bytes.fromhex(cs), network=net, witness_type=wt, multisig=True).public_master_multisig())
+        return Wallet.create(name, keys=keys, sigs_required=case.get('sigs_required', 2), network=net, witness_type=wt, db_uri=uri,
+                             anti_fee_sniping=False)
+    if case['wtype'] == 'multisig_account':
+        ap = account_path(net, wt, True)
+        keys = [bip32.derive(bip32.master(seed), ap).serialize(chain.hd_prefix(net, wt, True, True), private=True)]
+        for cs in case['cosigner_seeds']:
+            keys.append(bip32.derive(bip32.master(bytes.fromhex(cs)), ap).serialize(chain.hd_prefix(net, wt, True, False), private=False))
         return Wallet.create(name, keys=keys, sigs_required=case.get('sigs_required', 2), network=net, witness_type=wt, db_uri=uri,
                              anti_fee_sniping=False)
     raise ValueError(case['wtype'])
@@ -1016,6 +1050,9 @@ def dbkey_keyer(obj, form, val, taint):
 
 def _wallet_secrets(case):
     seeds = [bytes.fromhex(case['seed'])] + [bytes.fromhex(s) for s in case.get('cosigner_seeds', [])]
+    if case['wtype'] in ACCOUNT_WTYPES:
+        base = tuple(account_path(case['network'], case['witness_type'], case['wtype'] == 'multisig_account'))
+        seeds = [(sd, base) for sd in seeds]
     singles = []
     if case.get('single_secret'):
         singles.append(int(case['single_secret'], 16))
@@ -1031,6 +1068,41 @@ def scan_tx_forms(col, taint, case, ctx):
             for form, (fh, val) in scan_rendered(col, taint, rendered).items():
                 if fh:
                     report(col, None, 'default %s of %s' % (form, oname), case, oname, form, fh)
+
+
+def scan_wallet_exports(col, taint, case, ww, label):
+    """Default / public exports of one Wallet object (the wallet itself or one of its cosigner wallets)."""
+    check_default_forms(col, taint, case, ww, label)
+    for ename, fn in (('wif()', lambda: ww.wif()), ('wif(is_private=False)', lambda: ww.wif(is_private=False))):
+        try:
+            val = fn()
+        except Exception as e:
+            refused(col, 'wallet_export_refused', '%s %s.%s' % (case['wtype'], label, ename), e)
+            continue
+        col.probe('wallet_export_scan')
+        col.probe('wallet_wif_export_scan')
+        h = _tag(scan_graph(taint, val)[0], ename)
+        if h:
+            report(col, None, '%s.%s' % (label, ename), case, label, ename, h)
+
+
+def scan_public_master(col, taint, case, ww, label, cls, ident):
+    try:
+        pm = ww.public_master()
+    except Exception as e:
+        refused(col, 'view_refused', '%s %s.public_master()' % (case['wtype'], label), e)
+        return
+    for v in (pm if isinstance(pm, list) else ([pm] if pm is not None else [])):
+        col.case('%s/%s.public_master()' % (cls, label), nontrivial=ident + (label, 'public_master'),
+                 sample=dict(case, view='%s.public_master()' % label))
+        check_public_view(col, taint, case, v, '%s.public_master()' % label)
+        for sub, get in (('._hdkey_object', lambda: v._hdkey_object), ('.key()', lambda: v.key())):
+            try:
+                hk = get()
+                if hk is not None and not isinstance(hk, list):
+                    check_public_view(col, taint, case, hk, '%s.public_master()%s' % (label, sub))
+            except Exception as e:
+                refused(col, 'view_refused', '%s %s.public_master()%s' % (case['wtype'], label, sub), e)
 
 
 def run_wallet_case(case, col):
@@ -1056,15 +1128,14 @@ def run_wallet_case(case, col):
         # ---- 1. default forms of the private wallet and of the objects it hands out
         col.case(cls + '/default-forms', nontrivial=ident + ('defaults',), sample=dict(case, view='defaults'))
         scan_tx_forms(col, taint, case, ctx)
-        check_default_forms(col, taint, case, w, 'private Wallet')
+        scan_wallet_exports(col, taint, case, w, 'Wallet')
         for label, fn in (('keys(as_dict=True)', lambda: w.keys(as_dict=True)),
                           ('keys_addresses(as_dict)', lambda: w.keys_addresses(as_dict=True)),
                           ('keys_accounts(as_dict)', lambda: w.keys_accounts(as_dict=True)),
                           ('keys_networks(as_dict)', lambda: w.keys_networks(as_dict=True)),
                           ('addresslist()', lambda: w.addresslist()),
                           ('accounts()', lambda: w.accounts()),
-                          ('info(detail=5)', lambda: capture(w.info, 5)),
-                          ('wif()', lambda: w.wif())):
+                          ('info(detail=5)', lambda: capture(w.info, 5))):
             try:
                 val = fn()
             except Exception as e:
@@ -1077,7 +1148,7 @@ def run_wallet_case(case, col):
         row_ids = []
         for ww, wl in [(w, '')] + [(cw, 'cosigner ') for cw in (w.cosigner or [])]:
             if wl:
-                check_default_forms(col, taint, case, ww, 'cosigner Wallet')
+                scan_wallet_exports(col, taint, case, ww, 'cosigner Wallet')
             rows = ww.keys()
             ids = [r.id for r in rows]
             if not wl:
@@ -1109,21 +1180,7 @@ def run_wallet_case(case, col):
             watch_keys = w.wif(is_private=False)
         except Exception as e:
             refused(col, 'view_refused', '%s Wallet.wif(is_private=False)' % case['wtype'], e)
-        try:
-            pm = w.public_master()
-        except Exception as e:
-            refused(col, 'view_refused', '%s Wallet.public_master()' % case['wtype'], e)
-            pm = None
-        for v in (pm if isinstance(pm, list) else ([pm] if pm is not None else [])):
-            col.case(cls + '/public_master()', nontrivial=ident + ('public_master',), sample=dict(case, view='Wallet.public_master()'))
-            check_public_view(col, taint, case, v, 'Wallet.public_master()')
-            for sub, get in (('._hdkey_object', lambda: v._hdkey_object), ('.key()', lambda: v.key())):
-                try:
-                    hk = get()
-                    if hk is not None and not isinstance(hk, list):
-                        check_public_view(col, taint, case, hk, 'Wallet.public_master()' + sub)
-                except Exception as e:
-                    refused(col, 'view_refused', '%s Wallet.public_master()%s' % (case['wtype'], sub), e)
+        scan_public_master(col, taint, case, w, 'Wallet', cls, ident)
         for rid in row_ids[-2:]:
             try:
                 v = WalletKey(rid, w.session).public()
@@ -1149,6 +1206,22 @@ def run_wallet_case(case, col):
             h = _tag(scan_graph(taint, val)[0], label)
             if h:
                 report(col, None, 'Wallet.%s' % label, case, 'private Wallet', label, h)
+        # ---- 3b. the same exports through a freshly opened handle (nothing cached by the history)
+        try:
+            wr = Wallet(name, db_uri=_db_uri(db_path))
+        except Exception as e:
+            refused(col, 'view_refused', '%s reopen' % case['wtype'], e)
+            wr = None
+        if wr is not None:
+            col.case(cls + '/reopened-exports', nontrivial=ident + ('reopened',), sample=dict(case, view='reopened wallet exports'))
+            col.probe('reopened_wallet_scan')
+            try:
+                for ww, wl in [(wr, 'reopened Wallet')] + [(cw, 'reopened cosigner Wallet') for cw in (wr.cosigner or [])]:
+                    scan_wallet_exports(col, taint, case, ww, wl)
+                    scan_public_master(col, taint, case, ww, wl, cls, ident)
+            finally:
+                _close_wallet(wr)
+                del wr
         # ---- 4. watch-only wallet from the exported public key(s)
         if watch_keys:
             try:
@@ -1195,13 +1268,13 @@ def run_wallet_case(case, col):
 
 
 def gen_wallet_case(rnd, wtype=None, maxhist=6):
-    wtype = wtype or rnd.choice(['hd', 'hd', 'hd', 'single', 'multisig'])
+    wtype = wtype or rnd.choice(['hd', 'hd', 'hd_account', 'hd_account', 'watch_account', 'single', 'multisig', 'multisig_account'])
     net = rnd.choice(WALLET_NETS)
     wts = sorted(chain.NETWORKS[net]['hd'])
     case = {'kind': 'wallet', 'wtype': wtype, 'network': net, 'witness_type': rnd.choice(wts), 'seed': rnd.randbytes(32).hex()}
     if wtype == 'single':
         case['single_secret'] = '%064x' % gen_secret(rnd)
-    if wtype == 'multisig':
+    if wtype in ('multisig', 'multisig_account'):
         case['cosigner_seeds'] = [rnd.randbytes(32).hex() for _ in range(rnd.choice([1, 2]))]
         case['sigs_required'] = rnd.choice([1, 2])
     ops = [o for o in W_OP_NAMES if not (wtype != 'hd' and o in ('new_account', 'import_key'))]
@@ -1385,7 +1458,7 @@ def plan(tier, seed, scale=1.0):
                       'timeout': 3 * 3600 if thorough else 600})
     nw = 16 if thorough else 6
     for i in range(nw):
-        specs.append({'part': 'wallets', 'shard': 100 + i, 'n_wallets': max(1, int((800 if thorough else 24) * scale / nw)),
+        specs.append({'part': 'wallets', 'shard': 100 + i, 'n_wallets': max(1, int((800 if thorough else 36) * scale / nw)),
                       'timeout': 3 * 3600 if thorough else 600})
     na = 4 if thorough else 1
     for i in range(na):
@@ -1398,7 +1471,8 @@ def plan(tier, seed, scale=1.0):
 
 def run_shard(spec, col):
     for p in ('scanner_selfcheck', 'graph_scan', 'pickle_scan', 'deepcopy_scan', 'repr_scan', 'str_scan', 'as_dict_scan',
-              'as_json_scan', 'info_scan', 'history_op', 'wallet_history_op', 'wallet_export_scan', 'dbkey_repr_scan',
+              'as_json_scan', 'info_scan', 'history_op', 'wallet_history_op', 'wallet_export_scan', 'wallet_wif_export_scan',
+              'reopened_wallet_scan', 'dbkey_repr_scan',
               'walletkey_default_scan', 'tx_default_forms', 'dbfile_scan_encrypted', 'dbfile_scan_control',
               'dbfile_control_found_raw', 'dbfile_control_found_text', 'atrest_private_rows'):
         col.require(p)
@@ -1430,7 +1504,8 @@ def run_shard(spec, col):
             run_key_case(case, col)
     elif part == 'wallets':
         for j in range(spec['n_wallets']):
-            case = gen_wallet_case(rnd, wtype=['hd', 'single', 'multisig', 'hd'][j % 4] if j < 4 else None)
+            order = ['hd_account', 'multisig_account', 'hd', 'single', 'multisig', 'watch_account']
+            case = gen_wallet_case(rnd, wtype=order[(j + spec['shard']) % 6] if j < 6 else None)
             run_wallet_case(case, col)
     elif part == 'atrest':
         for _ in range(spec['n_cases']):
